@@ -19,7 +19,8 @@ RULE = ('cases = scenario {reject with (result, source, reason): all 60 standard
         'normally / by an exception} x point in the conversation {before, between, during a '
         'multi-fragment exchange} x seeded schedule and segmentation; fault configuration adds '
         'RST and provider stalls; non-trivial = every case (each one is a full association); '
-        'distinct = distinct (scenario, values, point)')
+        'distinct = distinct (scenario, values, point)'
+        '; plus: peer answers+aborts in one write; responses in flight at a normal exit; release never answered; exit after a peer-requested release')
 ASSUMPTIONS = ['exceptions at the receiving side are observed by wrapping '
                'Association._get_dul_message from outside',
                'under an injected RST only "no wrong values" is required',
